@@ -104,7 +104,7 @@ def initial_amplitude(kind, n):
 
 
 def prop_inputs(case):
-    n, (kind, D), gap, dt = case["n"], case["coupling"], case["gap"], case["dt"]
+    n, (kind, D), gap = case["n"], case["coupling"], case["gap"]
     e0 = 2.0 + gap * np.arange(n)
     e1 = e0 + 0.1 * gap * np.cos(np.arange(n) + 0.3 * case.get("seed", 0))
     if kind == "spike":
@@ -181,6 +181,12 @@ def prop_case(case):
         else:
             out["auto_batch_dev"] = dev
             out["auto_batch_amp_err"] = float(np.abs(cb[0] - ref).max())
+            # the violent mate (row 1) must itself be integrated on a grid fine enough for IT
+            me0, me1, mn0, mn1, mc0 = prop_inputs(mate)
+            mref = FM.reference_propagation(mc0, me0, me1, mn0, mn1, dt)
+            mstiff = max(np.abs(mn0).max(), np.abs(mn1).max(), (max(me0.max(), me1.max()) - min(me0.min(), me1.min())) / FM.HBAR_EV_FS)
+            out["mate_resolved"] = bool(dt / auto_substeps(dt, mn0, mn1) * mstiff <= RESOLVED)
+            out["mate_amp_err"] = float(np.abs(cb[1] - mref).max())
     return out
 
 
@@ -260,6 +266,12 @@ def account_prop(chk, cases, results):
         else:
             chk.excluded += 1
             auto_unres = max(auto_unres, r["norm"]["auto"])
+        if r.get("mate_resolved"):
+            compared += 1
+            if r["mate_amp_err"] > AUTO_BOUND:
+                chk.violation(dict(base, problem_class="auto_substeps_of_batch_mate", substeps="auto", value=r["mate_amp_err"]),
+                              f"{k}: row 1 of the batch (coupling peak 100 /fs) is off its reference by {r['mate_amp_err']:.2e} under automatic sub-steps "
+                              f"although its own automatic count resolves it", replay=dict(part="prop", case=c))  # fmt: skip
         chk.case(k, nontrivial=compared > 0, outcome=f"{r['nauto']}|{int(np.log10(max(r['norm']['auto'], 1e-17)))}|{compared}")
         chk.traces += 1
     chk.extra["prop_norm_ratio_min_informational"] = float(min(ratios_n)) if ratios_n else None
@@ -815,14 +827,19 @@ def run(chk, tier, seed):
     global _SEED
     _SEED = int(seed)
     _kscale()
+    import os
+
+    parts = set(os.environ.get("VP_C17_PARTS", "a,b1,b2,b3,c").split(","))  # development aid: restrict the parts run
+    if parts != {"a", "b1", "b2", "b3", "c"}:
+        chk.cap(f"only parts {sorted(parts)} were run (VP_C17_PARTS)")
     # ---------------- (a)
-    pc = prop_lattice(tier)
+    pc = prop_lattice(tier) if "a" in parts else []
     for c in pc:
         c["seed"] = int(seed)
     res = pmap(prop_case, pc, chunk=8, timeout=900, progress="C17 propagator")
     account_prop(chk, pc, res)
     # ---------------- (b2)
-    rc = rescale_lattice()
+    rc = rescale_lattice() if "b2" in parts else []
     res = pmap(rescale_case, rc, chunk=200, timeout=600)
     for c, r in zip(rc, res):
         k = f"rescale|dE={c['dE']:g}|v={c['v']}|d={c['d']}|m={c['masses']}|{c['orient']}|row={c['row']}"
@@ -836,7 +853,7 @@ def run(chk, tier, seed):
             chk.violation(dict(part="rescale", problem_class=pr["cls"], dE=c["dE"], dE_negative=bool(c["dE"] < 0), v=c["v"], d=c["d"], masses=c["masses"],
                                v_dot_d_zero=bool(r["v_dot_d"] == 0.0), row=c["row"]), f"{k}: {pr['msg']}", replay=dict(part="rescale", case=c))  # fmt: skip
     # ---------------- (b3)
-    dc = draw_lattice()
+    dc = draw_lattice() if "b3" in parts else []
     res = pmap(draw_case, dc, chunk=300, timeout=600)
     for c, r in zip(dc, res):
         k = f"draw|act={c['active']}|amp={c['amp']}|fam={c['fam']}|r={c['r']}"
@@ -850,7 +867,7 @@ def run(chk, tier, seed):
             chk.violation(dict(part="draw", problem_class=pr["cls"], draw=pr.get("draw"), draw_zero=bool(pr.get("draw") == 0.0), prob_of_target=pr.get("prob_of_target"),
                                self_hop=bool(pr.get("self_hop")), row=pr.get("row")), f"{k}: {pr['msg']}", replay=dict(part="draw", case=c))  # fmt: skip
     # ---------------- (b1)
-    tasks = bfs_tasks(tier, int(seed))
+    tasks = bfs_tasks(tier, int(seed)) if "b1" in parts else []
     res = pmap(bfs_task, tasks, chunk=4, timeout=900, progress="C17 hop machine")
     states = set()
     singles = {}
@@ -897,11 +914,11 @@ def run(chk, tier, seed):
     chk.states = len(states)
     chk.extra["machine_events_realised"] = realised
     chk.extra["machine_batch_vs_single_comparisons"] = ncmp
-    for ev in ("none", "up_ok", "up_frus", "down", "cross_active", "cross_other"):
+    for ev in ("none", "up_ok", "up_frus", "down", "cross_active", "cross_other") if "b1" in parts else ():
         if not any(k.startswith(ev) for k in realised):
             chk.harness_error(f"hop-machine event '{ev}' was never realised: the scripted environment is vacuous")
     # ---------------- (c)
-    for name in TULLY_MODELS:
+    for name in TULLY_MODELS if "c" in parts else []:
         r = tully_gradient_case(name)
         k = f"tully_gradient|{name}"
         chk.case(k, nontrivial=True, outcome=f"{r['max_err']:.1e}")
@@ -911,7 +928,7 @@ def run(chk, tier, seed):
                           f"{k}: analytic dE/dx of the model differs from the finite difference of its own energy by {r['max_err']:.3e} "
                           f"(x = {r['x']}: analytic {np.round(r['dE'], 6).tolist()}, finite difference {np.round(r['fd'], 6).tolist()})",
                           replay=dict(part="tully_gradient", model=name))  # fmt: skip
-    tl = tully_lattice(tier)
+    tl = tully_lattice(tier) if "c" in parts else []
     res = pmap(tully_case, tl, chunk=2, timeout=900, progress="C17 Tully")
     drift_max = 0.0
     for c, r in zip(tl, res):
